@@ -87,6 +87,9 @@ WITNESS = {
     "c10_template/Template::from_str_with_tab_width": ["template_order", "template_total"],
     "c12_padding/PaddedStringDisplay::fmt": ["pad_field ascii"],
     "c12_padding/PaddedStringDisplay::fmt__F_": ["pad_field"],
+    "c15_formatters/HumanFloatCount::fmt": ["human_float"],
+    "c15_formatters/HumanCount::fmt": ["human_count"],
+    "c15_formatters/FormattedDuration::fmt": ["formatted_duration"],
     "c14_style/ProgressStyle::tick_strings": ["style_build tick_strings"],
     "c14_style/ProgressStyle::progress_chars": ["style_build progress_chars"],
     "c14_style/ProgressStyle::tick_chars": ["style_build tick_chars"],
